@@ -616,7 +616,7 @@ class Context:
             self._obligation('div_by_zero', Cmp.make(f, '=='), repr(f)[:200])
 
     def zero_division(self, x):
-        if self.opts.get('generic_divisors'):
+        if self.opts.get('generic_divisors') and not self.opts.get('zero_divisor_is_failure'):
             self.notes.append('path abandoned: a divisor is identically zero (outside the genericity assumption)')
             raise PathAbort('divisor identically zero')
         self.obligations.append({'kind': 'div_by_zero', 'verdict': 'sat',
